@@ -125,7 +125,7 @@ class Model:
                 return dict(codes=["530"])
             self.user = u
             self.cwd = u["home"]
-            if u["login"] is None or u["password"] is None:
+            if u["password"] is None:  # "the correct password when that user has one": the anonymous entry included (F42)
                 self.auth = "logged"
                 return dict(codes=["230"])
             self.auth = "pending"
